@@ -117,8 +117,12 @@ def values_equal(ctx, a, b):
         return state_is(a, b) if isinstance(a, SymState) else state_is(b, a)
     if isinstance(a, str) or isinstance(b, str):
         return isinstance(a, str) and isinstance(b, str) and a == b
+    if isinstance(a, pd.Index) or isinstance(b, pd.Index):
+        return isinstance(a, pd.Index) and isinstance(b, pd.Index) and bool(a.equals(b))
     if isinstance(a, (pd.DataFrame, pd.Series)):
         if not isinstance(b, type(a)):
+            return False
+        if isinstance(a, pd.DataFrame) and not a.columns.equals(b.columns):
             return False
         a, b = a.to_numpy(), b.to_numpy()
     if isinstance(a, np.ndarray) or isinstance(b, np.ndarray):
@@ -138,6 +142,8 @@ def values_equal(ctx, a, b):
     if is_sym(a) or is_sym(b) or core._is_number(a) or core._is_number(b):
         if isinstance(a, (bool, np.bool_)) and isinstance(b, (bool, np.bool_)):
             return bool(a) == bool(b)
+        if isinstance(a, (float, np.floating)) and isinstance(b, (float, np.floating)) and np.isnan(a) and np.isnan(b):
+            return True  # the same (non-)value on both sides
         return ctx.eq(a, b)
     if callable(a) and callable(b):
         return True
